@@ -657,4 +657,8 @@ func (c *context) Reset(r *http.Request, w http.ResponseWriter) {
 	for i := 0; i < len(c.pvalues); i++ {
 		c.pvalues[i] = ""
 	}
+	if c.echo != nil && c.echo.maxParam != nil && len(c.pvalues) < *c.echo.maxParam {
+		// routes with more params could have been added after this (pooled) context was created
+		c.pvalues = make([]string, *c.echo.maxParam)
+	}
 }
